@@ -613,7 +613,11 @@ func runStore(a *args) error {
 					}
 					nb := 2 + r.Intn(10)
 					for b := 0; b < nb; b++ {
-						c.block(randOps(r, pol.name, keys, r.Intn(7), 5), []uint64{0, 1, 2, 3, 4, 5}, true)
+						nops, maxOrd := r.Intn(7), 5
+						if r.Intn(4) == 0 { // long blocks with many ties on the ordinal (stability of the sort)
+							nops, maxOrd = 13+r.Intn(40), 1+r.Intn(4)
+						}
+						c.block(randOps(r, pol.name, keys, nops, maxOrd), []uint64{0, 1, 2, 3, 4, 5}, true)
 						if r.Intn(3) == 0 {
 							c.cut()
 						}
@@ -626,7 +630,11 @@ func runStore(a *args) error {
 					}
 					nb := 3 + r.Intn(10)
 					for b := 0; b < nb; b++ {
-						ops := randOps(r, pol.name, keys, r.Intn(7), 5)
+						nops, maxOrd := r.Intn(7), 5
+						if r.Intn(4) == 0 {
+							nops, maxOrd = 13+r.Intn(40), 1+r.Intn(4)
+						}
+						ops := randOps(r, pol.name, keys, nops, maxOrd)
 						c.block(ops, []uint64{0, 2, 4}, false)
 						switch r.Intn(5) {
 						case 0: // undo then re-apply the same block, possibly twice (chain flipping back and forth)
